@@ -286,7 +286,7 @@ func (p c01) dpkgPair(c *core.C, rc ruleCount, ta, tb string) {
 		c.Failf("Compare(%q, %q) has sign %d; dpkg --compare-versions says %d", ta, tb, got, ds)
 	}
 	if want != ds {
-		c.Cover("~oracle-selfcheck-failed")
+		c.Cover("~inconclusive:the reference comparator disagrees with dpkg on a pair (oracle self-check)")
 		c.Cover("oracle-disagrees-with-dpkg")
 	}
 	if rule != "epoch" && ta != tb {
@@ -365,7 +365,7 @@ func (p c01) perlBatch(t *core.T, rc ruleCount, b core.Batch) {
 				t.Report("dpkg-pair", []byte(pairs[i][0]+"\x1e"+pairs[i][1]), "Compare(%q, %q) has sign %d; Dpkg::Version::version_compare says %d", pairs[i][0], pairs[i][1], got, ds)
 			}
 			if want != model.Sign(ds) {
-				c.Cover("~oracle-selfcheck-failed")
+				c.Cover("~inconclusive:the reference comparator disagrees with dpkg on a pair (oracle self-check)")
 				c.Cover("oracle-disagrees-with-dpkg")
 			}
 			if rule != "epoch" && pairs[i][0] != pairs[i][1] {
